@@ -222,6 +222,9 @@ fn check(ctx: &Ctx, b: &Built) {
                 Ok((items, _)) => ctx.count("trace_items_checked", items as u64),
                 Err(e) => ctx.violation("data/trace", format!("pass-1/pass-2 trace: {}", e), replay(json!(null))),
             }
+            if o.code == r.code && o.eeprom == r.eeprom {
+                crate::props::variants::check_one(ctx, &b.nodes, o, &mut Rng::for_case(fw::hash_str(&src), 0x7A80, 0), "data");
+            }
         }
         (Ok(_), Outcome::Err(e)) => {
             ctx.violation("data/fitting-values-rejected", format!("valid data program rejected: {}", fw::clip(e, 160)), replay(json!(null)));
@@ -377,12 +380,15 @@ pub fn run(ctx: &Ctx) -> i32 {
     });
     fw::finish(
         ctx,
-        "programs of 1-10 .db/.dw/.dd/.dq lines in flash and EEPROM, 0-12 operands each mixing boundary literals, computed values, .equ symbols, random expressions and strings (empty, punctuation that looks like comments, non-ASCII UTF-8), `.byte n` between EEPROM data; one in three programs carries exactly one fault (value that does not fit its width, string in a word directive, data directive in .dseg); plus the complete width x boundary-value grid in both segments; every second valid program again with runs of its lines moved into argument-less macros (same images required); 360 must-fail builds with literals of 2^63 and more in every radix reaching .db/.dw/.dd directly, through .equ, through a macro argument and inside an expression; 600 (thorough 20000) .db lines with hostile strings (multi-byte characters, backslash sequences, colons, comment openers) inside macros that take arguments, against the same line written directly and the bytes computed by hand; distinct_nontrivial = distinct program texts",
+        "programs of 1-10 .db/.dw/.dd/.dq lines in flash and EEPROM, 0-12 operands each mixing boundary literals, computed values, .equ symbols, random expressions and strings (empty, punctuation that looks like comments, non-ASCII UTF-8), `.byte n` between EEPROM data; one in three programs carries exactly one fault (value that does not fit its width, string in a word directive, data directive in .dseg); plus the complete width x boundary-value grid in both segments; every second valid program again with runs of its lines moved into argument-less macros (same images required); 360 must-fail builds with literals of 2^63 and more in every radix reaching .db/.dw/.dd directly, through .equ, through a macro argument and inside an expression; 600 (thorough 20000) .db lines with hostile strings (multi-byte characters, backslash sequences, colons, comment openers) inside macros that take arguments, against the same line written directly and the bytes computed by hand; every valid program once more in one randomly chosen setting that means nothing (as a file beginning with blank lines / CRLF / no final line end; a run of top-level lines in an included file; inside a selected branch; followed by .exit and unread text; preceded by unused definitions; respelled; branch and included file at once) with the same images, sizes, RAM extent and message texts required (props/variants.rs; counters variants:*); distinct_nontrivial = distinct program texts",
         &["refmodel/layout.rs data rules; fits = signed or unsigned representation of the width"],
     )
 }
 
 pub fn replay(ctx: &Ctx, case: &Value) -> i32 {
+    if case.get("variant").is_some() {
+        return crate::props::variants::replay(ctx, case);
+    }
     if case["beyond_i64"].as_bool() == Some(true) || case["macro_arguments"].as_bool() == Some(true) {
         let out = fw::build_str(case["source"].as_str().unwrap_or(""));
         ctx.eval(1);
